@@ -35,6 +35,7 @@ type Val struct {
 	Dyn    types.Type // interfaces: statically known dynamic type
 	Inner  *Val       // interfaces: the boxed concrete value when statically known
 	arrayLit *arrayLit
+	Region string // maps: heap region (location class) the map object lives in; "" = by type
 }
 
 // arrayLit remembers that a slice was made from a compiler-built array (variadic calls).
@@ -52,6 +53,8 @@ type Iter struct {
 	Map     Val
 	Visited Term // (Array Int Bool)
 	ID      int
+	Count   Term // number of elements yielded so far
+	MapWritten bool // the iterated map may be modified inside the loop
 }
 
 // Decoded denotes decoded(msg, T) and its sub-messages in specifications.
